@@ -185,6 +185,18 @@ namespace XKoJen
                     // Enough data to handle a full message ... and maybe more...
                     PutIntoFragmentBuffer(std::addressof(data[size_to_process]), msgSize - SizeOfHeader);
                     rxBytesParsed += (msgSize - SizeOfHeader);
+#if defined(__arm__)
+                    if (m_has_data_exceeding_fragment_buffer_size)
+                    {
+                        // The data was parsed over, not written to the buffer : there is no message to hand over.
+                        ResetFragmentation();
+                        if (count > rxBytesParsed)
+                        {
+                            OnDataReceived(std::addressof(data[rxBytesParsed]), count - rxBytesParsed);
+                        }
+                        return;
+                    }
+#endif
                     assert(m_fragment_buffer[0] == m_receiver_preamble_0 && m_fragment_buffer[1] == m_receiver_preamble_1); // TODO : remove? Handle?
                     m_msg_receiver->OnMessageReceived(std::addressof(m_fragment_buffer[0]), msgSize);
                     ResetFragmentation();
@@ -208,6 +220,16 @@ namespace XKoJen
                 uint32 rxBytesParsed = m_fragment_buffer_bytes_required;
                 PutIntoFragmentBuffer(data, m_fragment_buffer_bytes_required);
 #if defined(__arm__)
+                if (m_has_data_exceeding_fragment_buffer_size)
+                {
+                    // The data was parsed over, not written to the buffer : there is no message to hand over.
+                    ResetFragmentation();
+                    if (count > rxBytesParsed)
+                    {
+                        OnDataReceived(std::addressof(data[rxBytesParsed]), count - rxBytesParsed);
+                    }
+                    return;
+                }
 #else
                 m_fragment_buffer_cnt = m_fragment_buffer.size();
 #endif
